@@ -165,31 +165,31 @@ fn str_prefix__(s: &str, k: usize) -> (r: &str)
             forall|k: int| r < k <= index && k <= str_bytes(s).len() ==> !boundary(str_bytes(s), k),
 @*/
 /*@inject fcb_closure
-            ensures r == ((*b & 0xC0u8) != 0x80u8)
+            ensures r == ((*$B & 0xC0u8) != 0x80u8)
 @*/
 /*@inject fcb_proof
         proof {
-            let bytes__ = str_bytes(s);
-            let w__ = bytes__.subrange(lower_bound as int, index + 1);
-            assert forall|j: int| 0 <= j < w__.len() implies (call_ensures(pred__, (&w__[j],), false) ==> cont(bytes__[lower_bound + j])) by {
-                assert(w__[j] == bytes__[lower_bound + j]);
+            let bytes__ = str_bytes($S);
+            let w__ = bytes__.subrange($LB as int, $IDX + 1);
+            assert forall|j: int| 0 <= j < w__.len() implies (call_ensures(pred__, (&w__[j],), false) ==> cont(bytes__[$LB + j])) by {
+                assert(w__[j] == bytes__[$LB + j]);
             }
-            assert forall|j: int| 0 <= j < w__.len() implies (call_ensures(pred__, (&w__[j],), true) ==> !cont(bytes__[lower_bound + j])) by {
-                assert(w__[j] == bytes__[lower_bound + j]);
+            assert forall|j: int| 0 <= j < w__.len() implies (call_ensures(pred__, (&w__[j],), true) ==> !cont(bytes__[$LB + j])) by {
+                assert(w__[j] == bytes__[$LB + j]);
             }
-            if index >= 3 { axiom_utf8_no_four_continuation_bytes(s, index - 3); } else { axiom_utf8_first_byte_not_continuation(s); }
-            if new_index is None {
+            if $IDX >= 3 { axiom_utf8_no_four_continuation_bytes($S, $IDX - 3); } else { axiom_utf8_first_byte_not_continuation($S); }
+            if $R is None {
                 assert(call_ensures(pred__, (&w__[0],), false));
-                if index >= 3 {
+                if $IDX >= 3 {
                     assert(call_ensures(pred__, (&w__[1],), false));
                     assert(call_ensures(pred__, (&w__[2],), false));
                     assert(call_ensures(pred__, (&w__[3],), false));
                 }
             } else {
-                let k__ = new_index->Some_0 as int;
+                let k__ = $R->Some_0 as int;
                 assert(call_ensures(pred__, (&w__[k__],), true));
-                assert forall|q: int| lower_bound + k__ < q <= index implies !boundary(bytes__, q) by {
-                    assert(call_ensures(pred__, (&w__[q - lower_bound],), false));
+                assert forall|q: int| $LB + k__ < q <= $IDX implies !boundary(bytes__, q) by {
+                    assert(call_ensures(pred__, (&w__[q - $LB],), false));
                 }
             }
         }
